@@ -1,6 +1,6 @@
 import CoapVerif.Lemmas.StreamFeed
 import CoapVerif.Lemmas.StreamWs
-import CoapVerif.Lemmas.StreamWsFeed
+import CoapVerif.Lemmas.StreamWsSafe
 /-
 C05 — stream transports deliver the same messages however the byte stream is cut.
 
@@ -352,6 +352,35 @@ theorem ws_reader_no_oob_partial (mode : Mode) (accept : Bytes) (chunks : List B
   simp only [specObs]
   constructor <;> split <;> simp
 
+/-- (full strength, no hypothesis on the bytes) for EVERY byte stream and every segmentation the reader stays
+inside its buffers: no index ≥ 160 into `http_hdr`, none ≥ 14 into `rd_header`, the bytes carried over after the
+empty line fit `rd_header`, no byte read that was not written — also for header blocks outside `hsCleanOf` -/
+theorem ws_reader_no_oob (mode : Mode) (accept : Bytes) (chunks : List Bytes) :
+    (wsObs (Coap.M.Ws.feed mode accept {} chunks)).2 ≠ .oob := by
+  have := feed_safe mode accept chunks {} (Or.inl ⟨rfl, rfl, by decide, rfl, rfl, rfl⟩)
+  generalize Coap.M.Ws.feed mode accept {} chunks = r at this
+  obtain ⟨ms, sess, stuck⟩ := r
+  cases sess with
+  | oob => exact this.elim
+  | closed => simp [wsObs]
+  | «open» st' =>
+    simp only [wsObs]
+    split <;> simp
+
+/-- the reader state at the end of every run that leaves the session open is covered by the invariant: still in
+the handshake with a line buffer in which `strchr` finds no LF, or in the frame phase at a parser position of S -/
+theorem ws_reader_final_state_safe (mode : Mode) (accept : Bytes) (chunks : List Bytes) (st' : Coap.M.Ws.St)
+    (h : (Coap.M.Ws.feed mode accept {} chunks).2.1 = .open st') :
+    (st'.up = false ∧ lfIdx st'.httpHdr = none ∧ st'.httpHdr.length < httpCap) ∨ ∃ p, WsInv mode st' (.fr p) := by
+  have := feed_safe mode accept chunks {} (Or.inl ⟨rfl, rfl, by decide, rfl, rfl, rfl⟩)
+  generalize Coap.M.Ws.feed mode accept {} chunks = r at this h
+  obtain ⟨ms, sess, stuck⟩ := r
+  simp only at h
+  subst h
+  rcases this with hs | hfr
+  · exact Or.inl ⟨hs.1, hs.2.1, by have := hs.2.2.1; simp only [httpCap] at *; omega⟩
+  · exact Or.inr hfr
+
 /-! ### non-vacuity -/
 
 /-- a server-side connection: the upgrade request, a masked GET, a frame without data, a second masked GET -/
@@ -377,6 +406,9 @@ theorem ws_blank_led_line_differs :
     wsObs (Coap.M.Ws.feed .server [] {} [asc "GET /.well-known/coap HTTP/1.1\r\n x\r\n"]) = ([], .closed) ∧
     specObs (run (validator .server []) .server (asc "GET /.well-known/coap HTTP/1.1\r\n x\r\n")) = ([], .open false) ∧
     hsCleanOf .server [] {} (asc "GET /.well-known/coap HTTP/1.1\r\n x\r\n") = false := by decide +kernel
+/-- … and there the reader still stays inside its buffers (`ws_reader_no_oob` needs no hypothesis) -/
+example : (wsObs (Coap.M.Ws.feed .server [] {} (segment (asc "GET /.well-known/coap HTTP/1.1\r\n x\r\n") [3, 20]))).2 ≠ .oob :=
+  ws_reader_no_oob _ _ _
 /-- frame phase, client side: 16-bit length form, three frames, cut in the extended length / after the header /
 one byte per read — and 17 frames without data in front of a message (the model's former fuel bound) -/
 example : wsObs (Coap.M.Ws.feed .client [] { up := true } (segment [0x82, 0x7e, 0, 3, 1, 1, 0xaa, 0x82, 0, 0x82, 2, 0, 2] [3, 1, 5])) =
